@@ -22,7 +22,8 @@ VERIF = os.path.dirname(os.path.dirname(os.path.abspath(__file__)))
 COQ = os.path.join(VERIF, 'coq')
 BUILD = os.path.join(VERIF, '_build')
 PY = '/venv/bin/python'
-ENV = dict(os.environ, PYTHONPATH='/repo', PYTHONHASHSEED='0', PIP_NO_INDEX='1',
+REPO = os.environ.get('PYTRS_REPO', '/repo')
+ENV = dict(os.environ, PYTHONPATH=REPO, PYTRS_REPO=REPO, PYTHONHASHSEED='0', PIP_NO_INDEX='1',
            PYTHONDONTWRITEBYTECODE='1')
 
 sys.path.insert(0, os.path.join(VERIF, 'tools'))
